@@ -31,7 +31,7 @@ def tolerated(case, i, impl, model):
 
 
 def gen_cases(rng, tier):
-    n_user = 30 if tier == "thorough" else 5
+    n_user = 30 if tier == "thorough" else 10
     n_pre = 6 if tier == "thorough" else 2
     per = 80 if tier == "thorough" else 50
     cases = []
